@@ -175,13 +175,16 @@ impl Format {
 
         let s = s_in.trim();
 
-        for (idx, char) in s.chars().enumerate() {
+        // Byte offsets throughout (char_indices), so that every slice below falls on a character boundary.
+        for (idx, char) in s.char_indices() {
+            let next_idx = idx + char.len_utf8();
+            let is_last = next_idx == s.len();
             // We should parse if:
             // 1. we're at the end of the string
             // 2. Or we've hit a non-numeric char and the token is fully numeric
             // 3. Or, token is not numeric (e.g. month name) and the current char is the separator
             // 4. And, if the length of the current substring is longer than 1 and the char is not the optional separator of the previous token.
-            if idx == s.len() - 1
+            if is_last
                 || ((cur_token.is_numeric() && !char.is_numeric())
                     || (!cur_token.is_numeric() && (cur_item.sep_char_is(char))))
             {
@@ -189,13 +192,13 @@ impl Format {
                 if idx == prev_idx
                     && (prev_item.second_sep_char.is_none() || prev_item.second_sep_char_is(char))
                 {
-                    prev_idx += 1;
+                    prev_idx = next_idx;
                     continue;
                 }
 
                 if cur_token == Token::Timescale {
                     // Then we match the timescale directly.
-                    if idx != s.len() - 1 {
+                    if !is_last {
                         // We have some remaining characters, so let's parse those in the only formats we know.
                         ts = TimeScale::from_str(s[idx..].trim()).with_context(|_| ParseSnafu {
                             details: "when parsing from format string",
@@ -210,7 +213,7 @@ impl Format {
                 prev_item = cur_item;
                 prev_token = cur_token;
 
-                let end_idx = if idx != s.len() - 1 || !char.is_numeric() {
+                let end_idx = if !is_last || !char.is_numeric() {
                     // Only advance the token if we aren't at the end of the string
                     if cur_item.sep_char_is_not(char)
                         && (cur_item.second_sep_char.is_none()
@@ -231,7 +234,8 @@ impl Format {
                         break;
                     }
                     cur_item_idx += 1;
-                    match self.items[cur_item_idx] {
+                    // `get`: with MAX_TOKENS items there is no slot after the last one.
+                    match self.items.get(cur_item_idx).copied().flatten() {
                         Some(item) => {
                             cur_item = item;
                             cur_token = cur_item.token;
@@ -241,18 +245,28 @@ impl Format {
 
                     idx
                 } else {
-                    idx + 1
+                    next_idx
                 };
+
+                if prev_idx > end_idx {
+                    return Err(HifitimeError::Parse {
+                        source: ParsingError::UnknownFormat,
+                        details: "when parsing from format string",
+                    });
+                }
 
                 let sub_str = &s[prev_idx..end_idx];
 
                 match prev_token {
                     Token::YearShort => {
-                        decomposed[0] =
-                            sub_str.parse::<i32>().map_err(|_| HifitimeError::Parse {
+                        decomposed[0] = sub_str
+                            .parse::<i32>()
+                            .ok()
+                            .and_then(|year| year.checked_add(2000))
+                            .ok_or(HifitimeError::Parse {
                                 source: ParsingError::ValueError,
                                 details: "could not parse year as i32",
-                            })? + 2000;
+                            })?;
                     }
                     Token::DayOfYear => {
                         // We must parse this as a floating point value.
@@ -279,7 +293,10 @@ impl Format {
                         }
                     }
                     Token::WeekdayDecimal => {
-                        todo!()
+                        return Err(HifitimeError::Parse {
+                            source: ParsingError::UnknownFormat,
+                            details: "parsing a decimal weekday is not supported",
+                        });
                     }
                     Token::MonthName | Token::MonthNameShort => {
                         match MonthName::from_str(sub_str) {
@@ -303,12 +320,15 @@ impl Format {
                                     Some(pos) => {
                                         // If these are the subseconds, we must convert them to nanoseconds
                                         if prev_token == Token::Subsecond {
-                                            if end_idx - prev_idx != 9 {
-                                                decomposed[pos] = val
-                                                    * 10_i32.pow((9 - (end_idx - prev_idx)) as u32);
-                                            } else {
-                                                decomposed[pos] = val;
+                                            let num_digits = end_idx - prev_idx;
+                                            if num_digits > 9 {
+                                                return Err(HifitimeError::Parse {
+                                                    source: ParsingError::ValueError,
+                                                    details: "more than nine subsecond digits",
+                                                });
                                             }
+                                            decomposed[pos] =
+                                                val * 10_i32.pow((9 - num_digits) as u32);
                                         } else {
                                             decomposed[pos] = val
                                         }
@@ -334,13 +354,10 @@ impl Format {
                     }
                 }
 
-                prev_idx = idx + 1;
+                prev_idx = next_idx;
                 // If we are about to parse an hours offset, we need to set the sign now.
-                if cur_token == Token::OffsetHours {
-                    if &s[idx..idx + 1] == "-" {
-                        offset_sign = -1;
-                    }
-                    prev_idx += 1;
+                if cur_token == Token::OffsetHours && char == '-' {
+                    offset_sign = -1;
                 }
             }
         }
@@ -359,7 +376,10 @@ impl Format {
                     + (decomposed[4] as i64) * Unit::Minute
                     + (decomposed[5] as i64) * Unit::Second
                     + (decomposed[6] as i64) * Unit::Nanosecond;
-                Epoch::from_day_of_year(decomposed[0], days, ts) + elapsed
+                // As Epoch::from_day_of_year, but a year that does not fit is an error here, not a panic.
+                Epoch::maybe_from_gregorian(decomposed[0], 1, 1, 0, 0, 0, 0, ts)?
+                    + (days - 1.0) * Unit::Day
+                    + elapsed
             }
             None => Epoch::maybe_from_gregorian(
                 decomposed[0],
